@@ -49,6 +49,8 @@ Section Bytes.
     (h_crypt h =? 0) && (h_incompat h =? 0) && (h_comp_type h =? 0) &&
     (h_l1_off h mod 2 ^ h_cb h =? 0) && (h_rt_off h mod 2 ^ h_cb h =? 0) &&
     (h_l1_size h <=? 4194304) && (h_rt_clusters h <=? 8388608 / 2 ^ h_cb h) &&
+    (* one L1 table within the 32 MiB limit must be able to map the whole virtual disk *)
+    ((h_size h + 2 ^ (2 * h_cb h - 3) - 1) / 2 ^ (2 * h_cb h - 3) <=? 4194304) &&
     (if h_version h =? 3 then (104 <=? h_len h) && (h_len h mod 8 =? 0) && (h_len h <=? 2 ^ h_cb h) else true) &&
     (if h_backing_off h =? 0 then true else (h_backing_len h <=? 1023) && (h_backing_off h + h_backing_len h <=? 2 ^ h_cb h)).
 
